@@ -185,9 +185,9 @@ def inPycache (name : String) : Bool :=
 
 /-- `DSDLTemplateLoader.get_template_inputs` (after `fix_list_inputs_all_template_dir_files`): every file of the search
 path — any suffix, directory links followed — or of the template package, except what lies below a `__pycache__`
-directory. -/
+directory (unless `get_templates` enumerates it: the result starts from that set). -/
 def typeInputs (a : Args) : List TemplateFile :=
-  (typeLoaderFiles a).filter fun f => !inPycache f.name
+  (typeLoaderFiles a).filter fun f => !inPycache f.name || (typeTemplates a).contains f
 
 /-- `type_to_template` + `filter_type_to_template` + `Environment.get_template`: the first candidate class name
 that is the stem of some `.j2` file the loader lists; the template is then requested by `<stem>.j2`, which only a
